@@ -134,7 +134,7 @@ impl<'a> DynamicSystemData<'a> for HData<'a> {
         let ctx = &acc.ctx;
         let uid = acc.uid;
         let mut d = HData { uid, ctx: ctx.clone(), rd: Vec::new(), wr: Vec::new() };
-        if ctx.mode() == Mode::Identify {
+        if matches!(ctx.mode(), Mode::Identify | Mode::Hb) {
             return d;
         }
         ctx.gate(uid, Gate::PreFetch);
@@ -183,6 +183,11 @@ impl<'a> System<'a> for HSys {
         let uid = data.uid;
         if ctx.mode() == Mode::Identify {
             ctx.ident_push(IdentEv::Sys(uid));
+            return;
+        }
+        if ctx.mode() == Mode::Hb {
+            let v = ctx.hb_enter(uid);
+            ctx.hb_leave(uid, v);
             return;
         }
         ctx.gate(uid, Gate::PreRun);
@@ -545,6 +550,11 @@ impl<'a, M: Menu> System<'a> for SSys<M> {
             ctx.ident_push(IdentEv::Sys(uid));
             return;
         }
+        if ctx.mode() == Mode::Hb {
+            let v = ctx.hb_enter(uid);
+            ctx.hb_leave(uid, v);
+            return;
+        }
         ctx.ev(Ev::FetchDone, uid, 0);
         ctx.gate(uid, Gate::PostFetch);
         ctx.gate(uid, Gate::PreRun);
@@ -619,6 +629,11 @@ impl<'a> RunNow<'a> for HTl {
         let uid = self.uid;
         if ctx.mode() == Mode::Identify {
             ctx.ident_push(IdentEv::Tl(uid));
+            return;
+        }
+        if ctx.mode() == Mode::Hb {
+            let v = ctx.hb_enter(uid);
+            ctx.hb_leave(uid, v);
             return;
         }
         ctx.gate(uid, Gate::PreFetch);
@@ -717,6 +732,14 @@ impl<'a, 'b, 'c, M: Menu> BatchController<'a, 'b, 'c> for HCtl<M> {
             ctx.ident_push(IdentEv::BatchEnd(uid));
             return;
         }
+        if ctx.mode() == Mode::Hb {
+            let v = ctx.hb_enter(uid);
+            for _ in 0..self.k {
+                dispatcher.dispatch(world);
+            }
+            ctx.hb_leave(uid, v);
+            return;
+        }
         ctx.gate(uid, Gate::PreFetch);
         ctx.ev(Ev::FetchEnter, uid, 0);
         ctx.runs[uid as usize].fetch_add(1, SeqCst);
@@ -801,6 +824,11 @@ impl<'a, M: Menu> MultiDispatchController<'a> for HMulti<M> {
             ctx.ident_push(IdentEv::BatchBegin(uid, vec![], usize::MAX, usize::MAX));
             ctx.ident_push(IdentEv::BatchEnd(uid));
             return 0;
+        }
+        if ctx.mode() == Mode::Hb {
+            let v = ctx.hb_enter(uid);
+            ctx.hb_leave(uid, v);
+            return self.k as usize;
         }
         // the library has fetched `data` already: the window starts here, inside run_now
         ctx.ev(Ev::FetchEnter, uid, 1);
